@@ -64,8 +64,14 @@ def strip_wrappers(term):
             ws.append("some")
             term = term[1]
         elif k == "app" and len(term[2]) >= 1:
-            ws.append(("app", term[1], term[3], term[2][1:]))
-            term = term[2][0]
+            # the decoded argument: the first one that is not the message-type bits (a helper may take
+            # `message_type` before the raw value); entry = (app, leaf, proj, other args, index of the core)
+            args = term[2]
+            ci = 0
+            if len(args) > 1 and args[0] == ("bits", 0, 6):
+                ci = next((i for i, a in enumerate(args) if a != ("bits", 0, 6)), 0)
+            ws.append(("app", term[1], term[3], args[:ci] + args[ci + 1:], ci))
+            term = args[ci]
         else:
             return term, ws
 
